@@ -388,6 +388,10 @@ def stepIndicator (d : Drv) (line : String) : Drv × Option String :=
                   let aD := ctx.allow (κd * scaleOf ctx sc)
                   let r := ratAbs den ≤ aD || guards.any (fun g => ratAbs g ≤ aD)
                   (r, r && alt.isNone)
+                | some (.cquot _ den _ κd sc guards alt _ _) =>
+                  let aD := ctx.allow (κd * scaleOf ctx sc)
+                  let r := ratAbs den ≤ aD || guards.any (fun g => ratAbs g ≤ aD)
+                  (r, r && alt.isNone)
                 | some (.sqrtQuot _ den _ κd) =>
                   -- p/√q with the exact radicand zero up to the allowance (the code returns 0 when its own radicand is not positive)
                   let aD := ctx.allow (κd * ctx.M * ctx.M)
